@@ -261,7 +261,7 @@ PROPS["C18"] = dict(
          "'Constraint:', '[hidden]', '[deprecated]', '[replaced by' present iff configured; single-argument help shows only that "
          "argument's marker or reports 'is unknown'. Layout is not compared. Non-trivial = >= 1 invisible and >= 2 visible "
          "arguments and a non-default usage setting, or a single-argument help; distinct by case hash.",
-    require_classes=dict(all=["usage.full", "usage.sub_group", "usage.one_character_long_key", "usage.help_arg", "usage.help_arg_unknown", "usage.print_hidden", "usage.print_deprecated",
+    require_classes=dict(all=["usage.full", "usage.printed_twice", "usage.sub_group", "usage.one_character_long_key", "usage.help_arg", "usage.help_arg_unknown", "usage.print_hidden", "usage.print_deprecated",
                               "usage.short_only", "usage.long_only", "usage.line_length_set", "usage.long_key_own_line"]),
     assumptions=["--print-hidden / --print-deprecated are not combined with hfUsageHidden / hfUsageDeprecated (the argument is a flag that toggles the current setting)",
                  "description words do not start with '-' and are not the token 'nn' (TextBlock gives them a layout meaning)",
